@@ -38,6 +38,7 @@ import (
 	"sync/atomic"
 	"time"
 
+	"github.com/gauss-project/aurorafs/pkg/bmtpool"
 	"github.com/gauss-project/aurorafs/pkg/boson"
 	"github.com/gauss-project/aurorafs/pkg/file"
 	"github.com/gauss-project/aurorafs/pkg/file/joiner"
@@ -667,6 +668,16 @@ func fkExec(focus string) func(r *gosim.Run) {
 				w.rfail[f.Arg(0)] = f.Arg(1)
 			}
 		}
+		held := int(r.Plan.P("bmt_held", 0))
+		if held > bmtpool.Capacity-1 {
+			held = bmtpool.Capacity - 1
+		}
+		for i := 0; i < held; i++ {
+			bmtpool.Get()
+		}
+		if held > 0 {
+			r.Count("fault_bmt_pool_pressure")
+		}
 		r.RunPhases(r.Plan.Ops, w.exec, nil)
 		puts, gets := w.store.counts()
 		r.Add("store_puts", puts)
@@ -891,8 +902,16 @@ func fkSchedParams(p *gosim.Plan) {
 	p.Params["yield_pct"] = 100
 }
 
+// fkPoolPressure: in a third of the runs most of the 32 process-wide BMT hashers
+// are checked out for the whole run (a node busy with other uploads), so that
+// concurrent uploads share the one or two that are left.
+func fkPoolPressure(rng *rand.Rand, p *gosim.Plan) {
+	p.Params["bmt_held"] = gosim.Pick(rng, 0, 0, 0, 0, 30, 31)
+}
+
 func fkDelays(rng *rand.Rand, p *gosim.Plan) {
 	fkSchedParams(p)
+	fkPoolPressure(rng, p)
 	p.Params["get_delay_ms"] = gosim.Pick(rng, 0, 0, 1, 5, 50)
 	p.Params["put_delay_ms"] = gosim.Pick(rng, 0, 0, 0, 3)
 }
@@ -962,6 +981,7 @@ func c02Gen(rng *rand.Rand, tier string) *gosim.Plan {
 	fkSchedParams(p)
 	p.Params["get_delay_ms"] = 0
 	p.Params["put_delay_ms"] = gosim.Pick(rng, 0, 0, 2)
+	fkPoolPressure(rng, p)
 	budget := int64(6 << 20)
 	if tier == "thorough" {
 		budget = 24 << 20
